@@ -42,6 +42,10 @@ def run(ctx):
         jobs.append(({'x': '1'}, [['update %d' % (k + 1), 'update 2'], ['readref', 'readref'], ['read', 'readref']], 'random', n, ctx['seed'] + k, ()))
     jobs.append(({'x': '1'}, [['update 1', 'update 2'], ['readref', 'readref']], 'dfs', 4 * n, ctx['seed'], ('--pb', '3')))
     jobs.append(({'x': '1', 'race': '1'}, [['update 1', 'update 2'], ['readref', 'readref']], 'random', n, ctx['seed'], ()))
+    # instances constructed from an initial value (T's move constructor empties its source): both instances start identical
+    for key in ('init', 'init2'):
+        jobs.append(({'x': '1', key: '7'}, [['update 1', 'read', 'update 2', 'read', 'update 3', 'read']], 'opseq', 1, ctx['seed'], ()))
+        jobs.append(({'x': '1', key: '7'}, [['update 1', 'update 2'], ['read', 'read', 'readref'], ['read']], 'random', n, ctx['seed'], ()))
     do_search(ctx, H, jobs, 'left_right')
     if tie and not ctx['V'].violations:
         # model and code disagree (e.g. on a memory order) and SC interleavings show no failure: look among the weak executions of C03
